@@ -318,6 +318,7 @@ func distinctDeclared(ids []string) bool {
 }
 
 func parseAuto(data []byte) (*sbom.Document, error) { return readDoc(data) }
+
 // parseAs parses with the format stated explicitly and everything else as the reader's own defaults (a copy of the
 // reader's option set with the format filled in: the comparison with auto-detection must differ in the format only).
 func parseAs(data []byte, f formats.Format) (*sbom.Document, error) {
